@@ -86,6 +86,7 @@ def beartyping(
         claw_lock,
         claw_state,
     )
+    from beartype.claw._package._clawpkgmake import make_conf_hookable
 
     # Prior global beartype configuration registered by a prior call to the
     # beartype_all() function if any *OR* "None" otherwise.
@@ -117,7 +118,14 @@ def beartyping(
             # beartyping(...):" block has *NOT* itself called the beartype_all()
             # function with a conflicting beartype configuration. In this
             # case...
-            if claw_state.packages_trie_whitelist.conf_if_hooked == conf:
+            #
+            # Note that the beartype_all() function registers the "hookable"
+            # variant of the passed configuration (i.e., that configuration
+            # defaulting the "warning_cls_on_decorator_exception" option)
+            # rather than the passed configuration itself. The former rather
+            # than the latter is thus compared here.
+            if claw_state.packages_trie_whitelist.conf_if_hooked == (
+                make_conf_hookable(conf)):
                 # Restore the prior global beartype configuration if any.
                 claw_state.packages_trie_whitelist.conf_if_hooked = (
                     packages_trie_conf_if_hooked_old)
